@@ -97,6 +97,9 @@ pub struct Meta {
     pub total_domain: bool,
     pub has_choice: bool,
     pub has_probes: bool,
+    /// known-finding shapes this grammar contains (violations on it are reported under the shape's signature)
+    #[serde(default)]
+    pub shape_tags: Vec<String>,
 }
 impl Meta {
     pub fn is_static_skip(&self, tok: u16) -> bool {
